@@ -2395,6 +2395,10 @@ func (c *Compiler) validateRestrictions(n parse.Node, typ schema.Type, schemaTyp
 	supp := validRestrictionsType[schemaType]
 
 	for _, ch := range n.Children() {
+		if ch.Type() == parse.NodeBase && schemaType != SchemaIdentity {
+			// base belongs to identityref alone
+			c.error(n, fmt.Errorf(msg, ch.String()))
+		}
 		if !ch.Type().IsTypeRestriction() {
 			continue
 		}
